@@ -1,16 +1,92 @@
-(* C09 -- structure edits behave like list edits and survive save and reopen. *)
-From PsdV Require Import Base.Prelude Edit.Model Edit.Corr Edit.Inv.
+(* C09 -- structure edits behave like list edits and survive save and reopen.
+
+   Model: Edit/Model.v.  Specification: Edit/Spec.v -- one plain list of ids per container and the
+   Python list operations; an object is addressed by the list that contains it, never by a stored
+   pointer.  [kid_ids s a] is the child-id list of object a in the model state s. *)
+From PsdV Require Import Base.Prelude Edit.Model Edit.Spec Edit.Corr Edit.Inv Edit.Forest Edit.ProofsInv
+  Edit.ProofsTree Edit.ProofsKids Edit.ProofsRefine Edit.Persist.
 Open Scope Z_scope.
 
-(* F-C09-2: remove() leaves the stored _parent of the removed layer; Group.group_layers then
-   attaches the new group to that stale parent although the layer is no longer listed there *)
-Theorem group_layers_stale_parent_refuted :
-  exists s o, Inv s /\ ~ memz 3 (kid_ids s 2) = true /\ snd (step s o) = Done [4]
-              /\ kid_ids (fst (step s o)) 2 = [4].
+(* ---------------------------------------------------------------- the tree is the result of the list operations *)
+
+(* One accepted operation (outcome Done), from ANY state satisfying the invariant, with any arguments
+   inside the guard (existing objects; listing operations get detached layers): every child list of
+   the new state is what the plain-list operation gives.  Covers append, extend, insert, remove, pop,
+   clear, item assignment and deletion, delete_layer, move_to_group, move_up, move_down, Group.new (and
+   the setters / read-only operations, which leave the lists alone), for every code variant.
+   delete_layer / move_* / Group.new locate the object by its stored _parent in the model and by the
+   containing list in the specification: they agree because of invariant I1. *)
+Theorem step_refines : forall s o v,
+  Inv s -> quiet s -> guard s o -> refined_op o = true -> snd (step s o) = Done v ->
+  forall a, kid_ids (fst (step s o)) a = sp_apply (all_ids s) (next s) (is_container s) (kid_ids s) o a.
+Proof. intros s o v HI Q. apply ProofsRefine.step_refines. split; assumption. Qed.
+Print Assumptions step_refines.
+
+(* All histories of any length: the model's lists and plain lists run side by side stay equal.
+   step_refines_partial: Group.group_layers is not in [refined_op] (its list effect is compared by the
+   plain-list oracle of harness/vh/c09.py on every run; see also group_layers_stale_parent_refuted). *)
+Theorem history_refines : forall h s L,
+  Inv s -> quiet s -> guards_r s h -> accepted s h ->
+  (forall a, kid_ids s a = L a) -> forall a, kid_ids (run s h) a = sp_run s L h a.
+Proof. intros h s L HI Q Hg Ha HL. apply (ProofsRefine.history_refines h s L (conj HI Q) Hg Ha HL). Qed.
+Print Assumptions history_refines.
+
+(* the hypotheses are satisfiable: a guarded, accepted history on the nested scene *)
+Definition cfg_now : cfg := mkCfg true true true true true.
+Example refines_example :
+  let s := run (empty_state_v cfg_now) init1 in
+  let h := [MoveToGroup 3 0; Insert 2 (-1) 6; MoveUp 4 (-2); DeleteLayer 5; Pop 1 0] in
+  (Inv s /\ quiet s) /\ map (fun a => kid_ids (run s h) a) [0; 1; 2] = [[1; 3]; [2]; [6]].
+Proof. split; [split; [apply Invb_iff; vm_compute; reflexivity | left; reflexivity] | vm_compute; reflexivity]. Qed.
+
+(* refused operations: see Properties/C10.v (the invariant is kept; late refusals are findings) *)
+
+(* ---------------------------------------------------------------- save and reopen *)
+(* the record list written for a tree, read back by the reader's group stack, is the same tree:
+   same identities (names, kinds, attributes and pixels travel with the record), nesting and order;
+   for every tree, any depth and width *)
+Theorem build_flatten : forall isg l, wk_l isg l -> build (flat_l isg l) [[]] = Some l.
+Proof. exact build_flat. Qed.
+Print Assumptions build_flatten.
+
+Theorem reopen_after_save : forall lrfix isg f l,
+  wk_l isg l -> (lrfix = true \/ lr16 f = None) -> reopen (save lrfix isg f l) = Some l.
+Proof. exact Persist.reopen_after_save. Qed.
+Print Assumptions reopen_after_save.
+
+Example reopen_example :
+  reopen (save true (fun j => j <? 10) (mkFile [] (Some [RLeaf 77])) [T 1 [T 20 []; T 2 [T 21 []]]; T 22 []])
+  = Some [T 1 [T 20 []; T 2 [T 21 []]]; T 22 []].
+Proof. vm_compute. reflexivity. Qed.
+
+(* F-C09-1 (fixed by de76dec): the pinned writer updated layer_info although the reader takes Lr16/Lr32 *)
+Theorem save_lr16_drops_edit_refuted :
+  exists isg f l, wk_l isg l /\ reopen (save false isg f l) <> Some l.
+Proof. exact Persist.save_lr16_drops_edit_refuted. Qed.
+Print Assumptions save_lr16_drops_edit_refuted.
+
+(* ---------------------------------------------------------------- what the faithful model refutes *)
+(* F-C09-2 (open): remove() leaves the stored _parent of the removed layer; Group.group_layers then
+   attaches the new group to that stale parent although the layer is no longer listed there; plain
+   lists leave the new group unattached.  On every code variant. *)
+Theorem group_layers_stale_parent_refuted : forall c : cfg,
+  exists s o, Inv s /\ memz 3 (kid_ids s 2) = false /\ snd (step s o) = Done [4]
+              /\ kid_ids (fst (step s o)) 2 = [4]
+              /\ sp_apply (all_ids s) (next s) (is_container s) (kid_ids s) o 2 = [].
 Proof.
-  exists (run empty_state (init4 ++ [Remove 2 3])), (GroupLayers [3] None).
-  split; [apply Invb_iff; vm_compute; reflexivity|].
-  split; [vm_compute; discriminate|].
-  split; vm_compute; reflexivity.
+  intro c. exists (run (empty_state_v c) (init4 ++ [Remove 2 3])), (GroupLayers [3] None).
+  destruct c as [[] [] [] [] []];
+    (split; [apply Invb_iff; vm_compute; reflexivity|]; repeat split; vm_compute; reflexivity).
 Qed.
 Print Assumptions group_layers_stale_parent_refuted.
+
+(* F-C09-7 (open, consequence of F-C10-1): once a layer is listed twice, the stored parent names only
+   the last lister and move_to_group edits the wrong list *)
+Theorem move_after_double_listing_refuted :
+  exists s h, Inv s /\ kid_ids (run s h) 0 = [1; 2; 1]
+              /\ sp_run s (kid_ids s) h 0 = [2; 1].
+Proof.
+  exists (run (empty_state_v cfg_now) init0), [Extend 5 [1]; Clear 5; MoveToGroup 1 0].
+  split; [apply Invb_iff; vm_compute; reflexivity|]. split; vm_compute; reflexivity.
+Qed.
+Print Assumptions move_after_double_listing_refuted.
